@@ -383,7 +383,8 @@ Lemma cns_list_head (it : data) (r : list data) ed ats x' :
   exists v r' ed1 ani1, x' = DList (v :: r') /\ check_n_sequences it ed1 false ani1 ats = ROk v.
 Proof.
   destruct ed as [[|d [|d2 ed']]|]; simpl; try discriminate.
-  - destruct (check_n_sequences it (Some [d]) false true ats) as [v|] eqn:E; [|discriminate].
+  - match goal with |- context [if ?c then _ else _] => destruct c end; [discriminate|].
+    destruct (check_n_sequences it (Some [d]) false true ats) as [v|] eqn:E; [|discriminate].
     match goal with |- context [match ?t with ROk r' => ROk (v :: r') | RErr err => RErr err end] =>
       destruct t as [l|] end; [|discriminate].
     match goal with |- context [if ?c then _ else _] => destruct c end; [|discriminate].
@@ -557,4 +558,13 @@ Proof.
     destruct (nkind n); try exact E; contradiction.
   - destruct (check_xy_y_err n x y true false true (B true true)) as [e E]. exists e. apply check_error_rejects; auto.
     destruct (nkind n); try exact E; contradiction.
+Qed.
+
+(* a multi-input node (input_dim a tuple, Concat) rejects a list with the wrong number of inputs *)
+Lemma cns_wrong_input_count (items : list data) (ed : list nat) ans ani ats :
+  2 <= length ed -> length items <> length ed ->
+  check_n_sequences (DList items) (Some ed) ans ani ats = RErr ValueError.
+Proof.
+  intros L N. destruct ed as [|d [|d2 ed']]; simpl in L; try lia. simpl.
+  destruct (length items =? S (S (length ed'))) eqn:E; [apply Nat.eqb_eq in E; simpl in N; congruence|reflexivity].
 Qed.
